@@ -279,6 +279,11 @@ class Evaluator:
         if d in ("Path", "PurePath", "PurePosixPath", "pathlib.Path", "pathlib.PurePath", "pathlib.PurePosixPath") and len(args) == 1 and isinstance(args[0], str):
             # pure path algebra, modelled by PurePosixPath (as os.path.splitext is by posixpath)
             return pathlib.PurePosixPath(args[0])
+        if d in ("tuple", "list", "sorted", "set", "frozenset") and len(args) == 1 and isinstance(args[0], (list, tuple, set, frozenset, dict, str)) and not kwargs:
+            seq = list(args[0]) if not isinstance(args[0], (set, frozenset)) else sorted(args[0])
+            return {"tuple": tuple, "list": list, "sorted": sorted, "set": set, "frozenset": frozenset}[d](seq)
+        if d in ("any", "all") and len(args) == 1 and isinstance(args[0], (list, tuple)):
+            return (any if d == "any" else all)(self.truth(x) for x in args[0])
         if d == "bool" and len(args) == 1:
             return self.truth(args[0])
         if d == "str" and len(args) == 1 and isinstance(args[0], str):
